@@ -31,6 +31,11 @@ CHECKS["C02"] = dict(
     note="Event order inside one batch is free (creates/updates in order, deletes as multiset).",
     design="6/C02", technique="Coq proof (replay algebra, loop invariants) + differential correspondence and extracted replay oracle on implementation events")
 
+CHECKS["C13"] = dict(
+    text="lister x ticker x time.Timer x list worker x consumer as a labelled transition system whose actions are the select cases: by the closed-set technique (a finite set of states checked closed under every action contains every reachable state) proved for all action sequences of any length: one list at a time, no reachable state stuck, next list start always reachable, termination reachable from every state using only stop/ticker/worker actions, nothing left after Done; a clocked refinement proves by an inductive invariant that every observable trace passes trace_ok (each start >= previous consumption + 0.9 period); nextPeriod bounds over Q. Correspondence: lister+ticker in isolation (verif export) in synctest virtual time over the (period, latency, delay) grid, stop swept across the cycle; the real traces are checked by the extracted trace_ok, plus progress/shutdown/deadlock oracles.",
+    note="Go channel/select/timer semantics are modelled. Float rounding in nextPeriod is partial (2ns slack). Model of the code after the fix: commit for D3; the pre-fix model and its deadlock witness are kept as a theorem.",
+    design="6/C13", technique="Coq proof (closed-set reachability over the finite control skeleton + inductive clocked invariant) + model-derived trace predicate evaluated on virtual-time traces of the real lister")
+
 PENDING = {}
 
 def main():
@@ -74,6 +79,6 @@ def main():
     }
     json.dump(m, open(os.path.join(ROOT, "MANIFEST.json"), "w"), indent=1)
 
-HOOK_COMMITS = ["f59e4bd"]
+HOOK_COMMITS = ["f59e4bd", "32e7e09", "a7bf96a"]
 if __name__ == "__main__":
     main()
